@@ -429,7 +429,7 @@ impl MinMax {
 }
 
 fn sizes(t: Tier) -> (u32, u32) {
-    (t.pick(4, 6), t.pick(4, 5))
+    (t.pick(4, 8), t.pick(4, 6))
 }
 
 pub fn replay_families(t: Tier) -> Vec<Family<'static>> {
